@@ -25,7 +25,7 @@ CHECKS.update({
  'C07': dict(
    technique='CBMC contracts on NumberDataType::parseInput / checkValueRange (DFCC and harness-enforced per divisor) with strtol/strtoul/strtod as ghost-reading environment stubs',
    level='proof',
-   text='parseInput proved, for every numeric type shape (width 1..32 bit, signed/unsigned, BCD/FIX, REQ) and every mathematical reading of the text (128-bit magnitude, sign, parse end, ERANGE), to accept exactly the well-formed in-range numbers and to encode them exactly; fixed-point paths proved per divisor (quick tier: 10, 256, 1000 and the multiplier 10; thorough tier: 2, 16, 256, 10^1..10^9 and the multipliers 10^1..10^6; larger multipliers did not finish and are not claimed) incl. NaN/inf/overflow; date/time texts (unit datetime): encoded iff every component is in range, the bytes decode to the requested components; NumberDataType::derive: the combined divisor is the mathematical product or the definition is rejected, a derived type is a valid type shape again (per built-in base divisor), and every built-in number type is a valid type shape (generated table); checkValueRange proved equal to the two\'s-complement / IEEE range predicate for all raw values.',
+   text='parseInput proved, for every numeric type shape (width 1..32 bit, signed/unsigned, BCD/FIX, REQ) and every mathematical reading of the text (128-bit magnitude, sign, parse end, ERANGE), to accept exactly the well-formed in-range numbers and to encode them exactly; fixed-point paths proved per divisor (quick tier: 10, 256, 1000 and the multiplier 10; thorough tier: 2, 16, 256, 10^1..10^7 and the multipliers 10^1..10^5; larger divisors and multipliers did not finish reliably and are not claimed) incl. NaN/inf/overflow; date/time texts (unit datetime): encoded iff every component is in range, the bytes decode to the requested components; NumberDataType::derive: the combined divisor is the mathematical product or the definition is rejected, a derived type is a valid type shape again (per built-in base divisor), and every built-in number type is a valid type shape (generated table); checkValueRange proved equal to the two\'s-complement / IEEE range predicate for all raw values.',
    note=TB + 'strtol/strtoul/strtod are trusted stubs returning the clamp of a ghost reading (ISO C 7.22.1); exp2 of integral arguments exact. Value lists: ValueListDataField::writeSymbols is under contract in unit valuelist (a text is encoded iff it is a name of the list or a number text denoting a listed value without truncation; else rejected, nothing written). floatToUint16 (KNX): every float in (-700000, 700000) is encoded within one resolution step or as the invalid value if beyond the range, without undefined behaviour. Not decided: DataField::create range parsing (min/max of derived fields); hex/blank/exponent syntax of the C library.',
    ref='DESIGN.md 5 (C07)'),
  'C12': dict(
